@@ -75,6 +75,12 @@ between, so two first joiners end up in the same room object.  The source does t
 (`roomCreateAtomic`); the membership theorems speak about the code only as long as it holds. -/
 theorem C04_room_creation_atomic : Generated.Hub.roomCreateAtomic = true := by decide
 
+/-- The model applies the backend's room requests in the order they are issued.  The source drops a request as
+outdated only against the newest request of the *same* type (its timestamp table is indexed by the request
+type), so a `delete` is never discarded because a newer `update` or `incall` request overtook it — regenerated
+on every run. -/
+theorem C04_backend_requests_ordered_per_type : Generated.Hub.roomRequestOrderPerType = true := by decide
+
 private def demo : List Op :=
   [.connect 1, .connect 2, .hello 1 0 .client "alice" false false, .hello 2 0 .client "bob" false false,
    .join 1 "roomA" "nc1" (.ok none ""), .join 2 "roomA" "nc2" (.ok none ""), .join 1 "roomB" "nc3" (.ok none "")]
